@@ -67,17 +67,19 @@ func mergeTBStats(dst, src *tbStats) {
 }
 
 type tbHist struct {
-	w          *strings.Builder
-	rig        *Rig
-	r          *rand.Rand
-	st         *tbStats
-	maxSeat    int
-	nextID     int
-	interval   int  // GameContinueInterval of this table (seconds): > 0 leaves a window between settlement and the continue handler
-	expectHand bool // the harness is inside tryOpen … playHand: a hand may be open
-	dead       bool // engine abandoned (refused open holds the lock for 30 s, hang, panic)
-	synth      *SynthBackend
-	planned    []int64 // result planned for the running hand (by game index)
+	w                             *strings.Builder
+	rig                           *Rig
+	r                             *rand.Rand
+	st                            *tbStats
+	maxSeat                       int
+	nextID                        int
+	interval                      int  // GameContinueInterval of this table (seconds): > 0 leaves a window between settlement and the continue handler
+	expectHand                    bool // the harness is inside tryOpen … playHand: a hand may be open
+	lastSB, lastDealer, lastDealt int  // small blind / dealer of the hand just played, and how many were dealt in
+	forceBust                     bool // the hand being played leaves one survivor
+	dead                          bool // engine abandoned (refused open holds the lock for 30 s, hang, panic)
+	synth                         *SynthBackend
+	planned                       []int64 // result planned for the running hand (by game index)
 }
 
 func (h *tbHist) line(format string, a ...interface{}) {
@@ -371,6 +373,10 @@ func (h *tbHist) planResult(gs *pokerface.GameState) []int64 {
 		stacks[i] = p.Bankroll
 	}
 	mode := h.r.Intn(10)
+	if h.forceBust {
+		h.forceBust = false
+		mode = 3 // everybody but the winner busts
+	}
 	winner := h.r.Intn(n)
 	pot := int64(0)
 	for i := 0; i < n; i++ {
@@ -1010,6 +1016,22 @@ func (h *tbHist) playHand1() bool {
 		h.st.Hung++
 		return false
 	}
+	// who held which button in this hand (for departures that leave a dead button on an empty seat)
+	h.lastSB, h.lastDealer, h.lastDealt = 0, 0, 0
+	for _, p := range settled.State.PlayerStates {
+		if !p.IsParticipated {
+			continue
+		}
+		h.lastDealt++
+		for _, pos := range p.Positions {
+			if pos == "sb" {
+				h.lastSB = idNum(p.PlayerID)
+			}
+			if pos == "dealer" {
+				h.lastDealer = idNum(p.PlayerID)
+			}
+		}
+	}
 	res := []string{}
 	if settled.State.GameState != nil && settled.State.GameState.Result != nil {
 		for _, p := range settled.State.GameState.Result.Players {
@@ -1183,6 +1205,36 @@ func (h *tbHist) stopMidHandThenLeaves() {
 		h.opLeave([]int{out[k]})
 	}
 	h.st.OpMix["departures-after-the-hand-was-stopped-by-pause-or-close"]++
+}
+
+// newcomerBetweenButtonsThenBusts: during a hand somebody sits down (and joins) on a seat between the dealer
+// and the big blind, and the hand leaves a single survivor: the next hand is the survivor against the newcomer
+func (h *tbHist) newcomerBetweenButtonsThenBusts() {
+	sm := h.rig.hk.SeatManager()
+	d, bb := sm.CurrentDealerSeatID(), sm.CurrentBBSeatID()
+	if d < 0 || bb < 0 || h.maxSeat < 3 {
+		return
+	}
+	empty := map[int]bool{}
+	for _, e := range h.emptySeats() {
+		empty[e] = true
+	}
+	cands := []int{}
+	for s := (d + 1) % h.maxSeat; s != bb && len(cands) < h.maxSeat; s = (s + 1) % h.maxSeat {
+		if empty[s] {
+			cands = append(cands, s)
+		}
+	}
+	if len(cands) == 0 {
+		return
+	}
+	id := h.fresh()
+	if h.opReserve(id, int64(100+h.r.Intn(500)), cands[h.r.Intn(len(cands))]) != nil {
+		return
+	}
+	h.opJoin(id)
+	h.forceBust = true
+	h.st.OpMix["newcomer-between-buttons-then-one-survivor"]++
 }
 
 func (h *tbHist) emptySeats() []int {
@@ -1507,6 +1559,9 @@ func genTBHistory(r *rand.Rand, st *tbStats, hid int, maxHands int) (out string)
 		if r.Intn(2) == 0 {
 			h.betweenHands(true)
 		}
+		if !h.dead && r.Intn(4) == 0 {
+			h.newcomerBetweenButtonsThenBusts()
+		}
 		if !h.dead && r.Intn(6) == 0 {
 			h.openAttemptDuringHand() // the gate is made to fire while this hand runs (now and then on a paused table)
 		}
@@ -1515,6 +1570,18 @@ func genTBHistory(r *rand.Rand, st *tbStats, hid int, maxHands int) (out string)
 		}
 		if h.dead || !h.playHand() {
 			break
+		}
+		// a button holder of the hand just played gets up before the next one: the button (or the small blind) lands on an
+		// empty seat, not merely on a busted player's
+		if !h.dead && h.lastDealt >= 4 && r.Intn(5) == 0 {
+			who := h.lastSB
+			if r.Intn(3) == 0 {
+				who = h.lastDealer
+			}
+			if who != 0 && h.seatOfID(who) != -1 {
+				h.opLeave([]int{who})
+				h.st.OpMix["button-holder-left-between-hands"]++
+			}
 		}
 		if h.table().State.Status == pokertable.TableStateStatus_TablePausing {
 			// paused: sometimes top people up and set the next hand up by hand
